@@ -444,6 +444,79 @@ serde_roundtrip_harness!(c16_roundtrip_u64, u64);
 serde_roundtrip_harness!(c16_roundtrip_i64, i64);
 // @verif-end
 
+
+// ---------------------------------------------------------------------------
+// C01: the Python-style string repr (used when a string is printed inside a list / map) slices the text at
+// character boundaries - also behind a control character that takes more than one byte.
+// ---------------------------------------------------------------------------
+struct ReprOf<'a>(&'a str);
+impl core::fmt::Display for ReprOf<'_> {
+    fn fmt(&self, f: &mut core::fmt::Formatter<'_>) -> core::fmt::Result {
+        python_string_debug_fmt(self.0, f)
+    }
+}
+
+struct ReprSink {
+    buf: [u8; 16],
+    len: usize,
+}
+impl core::fmt::Write for ReprSink {
+    fn write_str(&mut self, s: &str) -> core::fmt::Result {
+        let b = s.as_bytes();
+        let mut i = 0;
+        while i < b.len() {
+            if self.len < 16 {
+                self.buf[self.len] = b[i];
+            }
+            self.len += 1;
+            i += 1;
+        }
+        Ok(())
+    }
+}
+
+macro_rules! string_repr_harness {
+    ($name:ident, $lead:expr, $lead_len:expr, $esc:expr) => {
+        #[kani::proof]
+        #[kani::unwind(18)]
+        fn $name() {
+            // the control character $lead (more than one byte in UTF-8) followed by ANY lower-case ASCII letter
+            let c: u8 = kani::any();
+            kani::assume(c >= b'a' && c <= b'z');
+            let mut raw = [0u8; $lead_len + 1];
+            let lead: &str = $lead;
+            let mut i = 0;
+            while i < $lead_len {
+                raw[i] = lead.as_bytes()[i];
+                i += 1;
+            }
+            raw[$lead_len] = c;
+            let s = unsafe { core::str::from_utf8_unchecked(&raw[..]) };
+            let mut sink = ReprSink { buf: [0; 16], len: 0 };
+            let r = core::fmt::write(&mut sink, format_args!("{}", ReprOf(s)));
+            assert!(r.is_ok());
+            // 'ESC' + letter + closing quote
+            let esc: &str = $esc;
+            assert!(sink.len == 1 + esc.len() + 1 + 1);
+            assert!(sink.buf[0] == b'\'');
+            let mut k = 0;
+            while k < esc.len() {
+                assert!(sink.buf[1 + k] == esc.as_bytes()[k]);
+                k += 1;
+            }
+            assert!(sink.buf[1 + esc.len()] == c);
+            assert!(sink.buf[2 + esc.len()] == b'\'');
+            kani::cover!(c == b'z');
+            kani::cover!(c == b'a');
+        }
+    };
+}
+
+// @verif-block props=C01 tier=quick cap=900 group=core doc=python_string_debug_fmt_(the_repr_of_a_string_inside_a_printed_list_or_map)_on_a_multi-byte_control_character_followed_by_ANY_lower-case_letter:_no_slice_inside_a_character,_output_is_quote_+_escape_+_letter_+_quote
+string_repr_harness!(c01_string_repr_after_nel, "\u{85}", 2, "\\x85");
+string_repr_harness!(c01_string_repr_after_c1_control, "\u{9f}", 2, "\\x9f");
+// @verif-end
+
 #[cfg(test)]
 mod playback {
     use super::*;
